@@ -143,6 +143,53 @@ func condFacts(v ssa.Value, truth bool, bind map[*ssa.Parameter]string, depth in
 			}
 			return nil
 		}
+		// result != nil of a module helper that returns nil for "not acceptable": the facts common to its non-nil returns,
+		// including what they establish about the returned value itself
+		if isNilConst(b) && !equal && !isErrorType(a.Type()) {
+			if call, ok := a.(*ssa.Call); ok {
+				if f := call.Call.StaticCallee(); f != nil && f.Blocks != nil && f.Signature.Results().Len() == 1 {
+					nb := map[*ssa.Parameter]string{}
+					for k, prm := range f.Params {
+						if k < len(call.Call.Args) {
+							nb[prm] = descAccessor(call.Call.Args[k], bind, 0)
+						}
+					}
+					self := descAccessor(call, bind, 0)
+					var common map[string]bool
+					for _, fb := range f.Blocks {
+						ret, ok := fb.Instrs[len(fb.Instrs)-1].(*ssa.Return)
+						if !ok || len(ret.Results) != 1 || isNilConst(ret.Results[0]) {
+							continue
+						}
+						rd := descAccessor(ret.Results[0], nb, 0)
+						fs := map[string]bool{}
+						for _, cd := range domConds(fb) {
+							for _, ft := range condFacts(cd.V, cd.Truth, nb, depth+1) {
+								fs[ft] = true
+								if strings.Contains(ft, rd) {
+									fs[strings.ReplaceAll(ft, rd, self)] = true
+								}
+							}
+						}
+						if common == nil {
+							common = fs
+						} else {
+							for k := range common {
+								if !fs[k] {
+									delete(common, k)
+								}
+							}
+						}
+					}
+					out := []string{self + "!=nil"}
+					for k := range common {
+						out = append(out, k)
+					}
+					sort.Strings(out)
+					return out
+				}
+			}
+		}
 		l, r := descAccessor(a, bind, 0), descAccessor(b, bind, 0)
 		if _, isC := a.(*ssa.Const); isC {
 			l, r = r, l
